@@ -275,6 +275,53 @@ theorem io_tables :
 
 end GenEq
 
+/-! ## prune loop, `_make_trunk`, catalog edge-wrap heuristic -/
+
+namespace GenEq
+
+/-- `_to_prune` hands a structure to the caller exactly when it is a leaf, still present, fails the criteria and has a
+parent — the test of the model's scan (`pruneKids`: `k.isLeaf`, `ic P k` false, inside a parent `P`) -/
+theorem to_prune_yields_iff (isLeaf alive indep hasParent : Bool) :
+    Gen.to_prune_yields isLeaf alive indep hasParent = (isLeaf && alive && !indep && hasParent) := by
+  unfold Gen.to_prune_yields
+  cases isLeaf <;> cases alive <;> cases indep <;> cases hasParent <;> gen_arith
+
+/-- the two-sibling rule: with exactly two children both are merged, with more only the failing leaf — the model's
+`pruneAt` (branches have ≥ 2 children: `C02_arity`, `C07_arity_preserved`) -/
+theorem prune_merge_mode_eq (P k : Tree) (h2 : 2 ≤ P.kids.length) :
+    pruneAt P k = (if Gen.prune_merge_mode P.kids.length = 2 then P.kids.foldl mergeInto P else mergeInto P k) ∧
+    Gen.prune_merge_mode P.kids.length ≠ 0 := by
+  have hm : ∀ n : Nat, 2 ≤ n → Gen.prune_merge_mode (n : Int) = if n = 2 then 2 else 1 := by
+    intro n hn
+    simp only [Gen.prune_merge_mode]
+    repeat' split
+    all_goals first | rfl | omega | (simp_all; done) | (simp_all; omega)
+  rw [hm _ h2]
+  unfold pruneAt
+  by_cases h : P.kids.length = 2 <;> simp [h]
+
+/-- `_make_trunk` removes a parentless leaf exactly when it fails the value-less criteria (the model's `makeTrunk`
+filter `!(t.isLeaf && !E.indepOrphan t)` keeps the others) -/
+theorem trunk_drop_iff (E : Env) (t : Tree) (hl : t.isLeaf = true) :
+    Gen.trunk_drop (E.indepOrphan t) = (t.isLeaf && !E.indepOrphan t) := by
+  unfold Gen.trunk_drop
+  rw [hl]
+  cases E.indepOrphan t <;> gen_arith
+
+/-- the edge-wrap heuristic, element by element and its acceptance test, are the formulas of `Catalog.wrapAxis`
+(`i2 = x + n` where `2x < n`, taken iff the spread gets strictly smaller) -/
+theorem wrap_heuristic_eq (x n a b : Int) :
+    Gen.wrap_elem x n = (if 2 * x < n then x + n else x) ∧ Gen.wrap_use a b = decide (a < b) := by
+  constructor
+  · simp only [Gen.wrap_elem]
+    repeat' split
+    all_goals first | rfl | omega | (simp_all; done) | (simp_all; omega)
+  · simp only [Gen.wrap_use]
+    repeat' split
+    all_goals first | rfl | (simp_all; done) | (simp_all; omega)
+
+end GenEq
+
 /-! ## flux.py -/
 
 namespace GenEq
